@@ -130,6 +130,7 @@ def build_hedger_price(torch, nn, c):
             def compute_portfolio(self, derivative, hedge=None):
                 return super().compute_portfolio(derivative, hedge) - fee
         cls = FeeHedger
+    c["_inputs"] = inputs
     return cls(model, inputs, criterion=crit), deriv, hedge, stock, others
 
 
@@ -188,6 +189,7 @@ def hedger_price_section(ctx, torch, nn):
     re-creates the same simulations under the same seed to read the market of every batch, and sends those buffers with its own description
     of the hedger to the model.  Expected shortfall: exact rational value of the model on the exact values of the float64 buffers (only the
     implementation's own arithmetic rounds); entropic criteria: IEEE double replica."""
+    from pfhedge.nn import Hedger as _Hedger
     g = ctx.gen
     dt = torch.float64
     reqs, metas = [], []
@@ -238,7 +240,7 @@ def hedger_price_section(ctx, torch, nn):
         st_l, loss, _ = call_impl(hedger.compute_loss, deriv, hedge=hedge, n_paths=N, n_times=nt, enable_grad=False)
         # the same simulations once more, to read the market of every batch
         torch.manual_seed(c["seed"])
-        und_batches, by_hand, by_hand_lib, payoff_bad = [], [], [], None
+        und_batches, by_hand, by_hand_lib, by_hand_sw, payoff_bad = [], [], [], [], None
         for _ in range(nt):
             deriv.simulate(n_paths=N)
             und_batches.append(tensor_to_fracs(stock.spot))
@@ -249,6 +251,12 @@ def hedger_price_section(ctx, torch, nn):
                     st_h, pf, _ = call_impl(hedger.compute_portfolio, deriv, hedge)
                     if st_h == "ok":
                         by_hand_lib.append(float(-hedger.criterion.cash(pf - deriv.payoff())))
+                    if c["model"] != "badwidth":
+                        # ... and with the hedge portfolio built by the harness from the module's own outputs, step by step
+                        pf_sw = stepwise_portfolio(torch, _Hedger, nn, hedger.model, c["_inputs"], deriv, hedge)
+                        if c.get("subclass"):
+                            pf_sw = pf_sw - float(c["subclass"]["fee"])
+                        by_hand_sw.append(float(-hedger.criterion.cash(pf_sw - deriv.payoff())))
             if c.get("reregistered") and st_p == "ok":
                 # the contractual payoff written out: payoff_fn() through the clauses IN FORCE (the last registration of every name, at
                 # the position of the name's first registration)
@@ -279,6 +287,13 @@ def hedger_price_section(ctx, torch, nn):
                 ctx.fail("Hedger.price differs from minus the cash amount of (the hedger's compute_portfolio - payoff) evaluated afterwards on the same "
                          "simulated paths (several hedging instruments, prev_hedge / ReLU / Naked modules, clauses)" + sub_txt, small,
                          key=f"price:{c['which']}:{sub}scenario:value", detail={"price": float(price), "expected": exp})
+        if st_p == "ok" and len(by_hand_sw) == nt:
+            exp = sum(by_hand_sw) / nt
+            if not abs(float(price) - exp) <= 1e-9 * max(1.0, abs(exp)):
+                ctx.fail("Hedger.price differs from minus the cash amount of (hedge portfolio - payoff) on the simulated paths, the hedge portfolio "
+                         "being built from the module's own outputs (the module evaluated step by step on the features of each step, instrument h "
+                         "holding output h, gains minus proportional costs summed over instruments and steps)" + sub_txt, small,
+                         key=f"price:{c['which']}:{sub}scenario:stepwise", detail={"price": float(price), "expected": exp, "H": len(hedge)})
         if c.get("reregistered") and st_p == "ok":
             if payoff_bad is not None:
                 ctx.fail("after a clause was registered again under an existing name, payoff() is not payoff_fn() passed through the clauses in "
@@ -489,6 +504,156 @@ def hedger_subclass_section(ctx, torch, nn):
             if st2 != "ok" or abs(float(price2) - (float(price) + k_shift)) > tolw * max(1.0, abs(exp)):
                 ctx.fail("adding a constant k to the payoff does not raise the price quoted by a user subclass of Hedger by exactly k", case,
                          key=f"price:{which}:subclass:shift", detail={"price": float(price), "price_shifted": float(price2) if st2 == "ok" else price2})
+
+
+# ---- the hedge portfolio built step by step from the MODULE's own outputs -----------------------------------------------------------
+
+def stepwise_portfolio(torch, Hedger, nn, model, inputs, deriv, hedge):
+    """terminal value (N,) of the hedge portfolio, without Hedger.compute_hedge / compute_portfolio / functional.pl: the module is evaluated by
+    the harness one time step after the other on the features of that step (state-independent ones read with Hedger.get_input(derivative, i)
+    of a probe hedger, "prev_hedge" = the module's previous output, zero before the first step), instrument h holds output[..., h] over
+    [t_i, t_i+1], the wealth is sum_h sum_i unit_h,i (S_h,i+1 - S_h,i) minus the proportional cost c_h S_h,i |unit_h,i - unit_h,i-1| of every
+    change of the position (the position is kept over the last step)"""
+    si = [f for f in inputs if f != "prev_hedge"]
+    probe = Hedger(nn.Naked(), si)            # only to read the features of one time step
+    spots = [h.spot for h in hedge]
+    N, T = spots[0].shape
+    prev_u = spots[0].new_zeros((N, 1, len(hedge)))
+    units = []
+    for i in range(T - 1):
+        x_si = probe.get_input(deriv, i)      # (N, 1, len(si))
+        cols, j = [], 0
+        for f in inputs:
+            if f == "prev_hedge":
+                cols.append(prev_u)
+            else:
+                cols.append(x_si[..., j:j + 1])
+                j += 1
+        prev_u = model(torch.cat(cols, dim=-1))     # (N, 1, H)
+        units.append(prev_u[:, 0, :])
+    wealth = spots[0].new_zeros((N,))
+    for h, inst in enumerate(hedge):
+        s_, pos = spots[h], spots[0].new_zeros((N,))
+        for i in range(T - 1):
+            u = units[i][:, h]
+            wealth = wealth - inst.cost * s_[:, i] * (u - pos).abs() + u * (s_[:, i + 1] - s_[:, i])
+            pos = u
+    return wealth
+
+
+_SW_W0 = [F(-1), F(-1, 2), F(1, 4), F(1, 2), F(1), F(3, 4)]
+
+
+def hedger_stepwise_section(ctx, torch, nn):
+    """Hedger.price against minus the cash amount of (hedge portfolio built step by step from the module's outputs - payoff) on the simulated
+    paths: hedgers whose features are all state-independent (the library evaluates the module on all time steps at once) and hedgers with
+    "prev_hedge" (step by step), H in {1, 2, 3} hedging instruments (the underlier, other stocks, options listed with a linear or a
+    Black-Scholes pricer on the underlier or on another stock, with cost rates), modules whose outputs differ per instrument and per time
+    step (a Linear layer, a user module), every criterion of this file.  Every (prev_hedge?, H, criterion) triple runs on every tier."""
+    from pfhedge.instruments import BrownianStock, EuropeanOption, LookbackOption
+    from pfhedge.nn import Hedger
+    g = ctx.gen
+    dt = torch.float64
+    crits = ("erm", "es", "eloss", "qcvar", "iso")
+    todo = [(prev, nh, which) for prev in (False, True) for nh in (1, 2, 3) for which in crits]
+    for _ in range(10 if ctx.tier == "quick" else 300):
+        todo.append((g.chance(0.5), g.choice([1, 2, 2, 3]), g.choice(crits)))
+
+    class Legs(torch.nn.Module):          # a user module: hedge ratio of instrument h = shift_h + scale_h * tanh(w_h . features + b_h)
+        def __init__(self, w, b, scale):
+            super().__init__()
+            self.register_buffer("w", w)
+            self.register_buffer("b", b)
+            self.register_buffer("scale", scale)
+
+        def forward(self, input):
+            return 0.25 * self.b + self.scale * torch.tanh(input @ self.w.T + self.b)
+
+    for it, (prev, nh, which) in enumerate(todo):
+        corpus = it < 30
+        crit = {"erm": nn.EntropicRiskMeasure(g.choice([0.5, 1.0, 2.0])), "es": nn.ExpectedShortfall(g.choice([0.1, 0.5, 1.0])),
+                "eloss": nn.EntropicLoss(g.choice([1.0, 1.5])), "qcvar": nn.QuadraticCVaR(g.choice([1.0, 10.0])), "iso": nn.IsoelasticLoss(0.5)}[which]
+        costs = [g.choice([0.0, 2.0 ** -9, 2.0 ** -6]) for _ in range(nh)]
+        n_steps = g.choice([2, 3, 5])
+        mat = n_steps / 250
+        stock = BrownianStock(cost=costs[0], sigma=g.choice([0.2, 0.3, 0.6]), dtype=dt)
+        deriv = g.choice([EuropeanOption, LookbackOption])(stock, strike=g.choice([0.9, 1.0, 1.1]), maturity=mat)
+        n_paths = g.choice([5, 50]) if corpus else g.choice([1, 2, 5, 50])
+        n_times = g.choice([1, 1, 2, 3])
+        seed = g.randint(0, 10 ** 6)
+        kinds, hedge, others = ["underlier"], [stock], []
+        for h in range(1, nh):
+            kind = g.choice(["stock", "listed-linear", "listed-bs", "listed-linear-other"])
+            kinds.append(kind)
+            if kind == "stock":
+                o = BrownianStock(cost=costs[h], sigma=0.25, dtype=dt)
+                others.append(o)
+            else:
+                ul = stock
+                if kind == "listed-linear-other":
+                    ul = BrownianStock(sigma=0.25, dtype=dt)
+                    others.append(ul)
+                o = EuropeanOption(ul, strike=g.choice([1.0, 1.05]), maturity=mat)
+                if kind == "listed-bs":
+                    o.list(lambda d: nn.BlackScholes(d).price(log_moneyness=d.log_moneyness(), time_to_maturity=d.time_to_maturity(),
+                                                              volatility=d.ul().volatility), cost=costs[h])
+                else:
+                    o.list(lambda d, a=g.choice([1.0, 2.0, 0.5]), b=g.choice([0.0, 1.0, -0.25]): d.ul().spot * a + b, cost=costs[h])
+            hedge.append(o)
+        # instruments that the derivative does not simulate keep the paths they are given here, for every batch
+        torch.manual_seed(seed + 1)
+        for o in others:
+            o.simulate(n_paths=n_paths, time_horizon=deriv.maturity)
+        inputs = [g.choice(["moneyness", "log_moneyness"])] + (["time_to_maturity"] if (not prev or g.chance(0.5)) else [])
+        if prev:
+            inputs.insert(g.randint(0, len(inputs)), "prev_hedge")
+        colnames = [c_ for f in inputs for c_ in (["prev_hedge"] * nh if f == "prev_hedge" else [f])]
+        nin = len(colnames)
+        # rows that differ per instrument (bias and scale strictly increasing in h) and react to every state-independent feature; the weights
+        # of the previous hedge are small enough for the position to stay bounded
+        w = [[float(g.choice(_SW_W0)) * (0.25 if cn == "prev_hedge" else 1.0) for cn in colnames] for _ in range(nh)]
+        b = [0.25 * (h + 1) * g.choice([1.0, -1.0]) for h in range(nh)]
+        model_kind = g.choice(["linear", "user-module"])
+        if model_kind == "linear":
+            model = torch.nn.Linear(nin, nh, dtype=dt)
+            with torch.no_grad():
+                model.weight.copy_(torch.tensor(w, dtype=dt))
+                model.bias.copy_(torch.tensor(b, dtype=dt))
+        else:
+            model = Legs(torch.tensor(w, dtype=dt), torch.tensor(b, dtype=dt), torch.tensor([1.0 + 0.5 * h for h in range(nh)], dtype=dt))
+        hedger = Hedger(model, inputs, criterion=crit)
+        hedge_arg = None if (nh == 1 and g.chance(0.5)) else hedge
+        case = {"criterion": which, "criterion_parameter": repr(crit), "features": inputs, "H": nh, "hedges": kinds, "costs": costs,
+                "model": model_kind, "w": w, "b": b, "derivative": type(deriv).__name__, "strike": deriv.strike, "steps": n_steps,
+                "sigma": stock.sigma, "n_paths": n_paths, "n_times": n_times, "seed": seed,
+                "hedge_argument": "None" if hedge_arg is None else "list of the instruments"}
+        if which == "iso":
+            deriv.add_clause("pos", lambda d, p: p - 8.0)          # keep portfolio - payoff positive for the isoelastic utility
+        ctx.case(case, True, tag="price:stepwise:prev_hedge" if prev else "price:stepwise")
+        ctx.stats[f"price:stepwise:{which}"] += 1
+        ctx.stats[f"price:stepwise:H={nh}:{'prev_hedge' if prev else 'state-independent'}"] += 1
+        ctx.traces += 1
+        torch.manual_seed(seed)
+        st, price, _ = call_impl(hedger.price, deriv, hedge=hedge_arg, n_paths=n_paths, n_times=n_times)
+        if st != "ok":
+            ctx.fail("Hedger.price raised (several hedging instruments / a module with one output per instrument)", case,
+                     key=f"price:{which}:stepwise:error", detail=price)
+            continue
+        torch.manual_seed(seed)
+        vals = []
+        with torch.no_grad():
+            for _ in range(n_times):
+                deriv.simulate(n_paths=n_paths)
+                wealth = stepwise_portfolio(torch, Hedger, nn, model, inputs, deriv, hedge)
+                vals.append(float(-crit.cash(wealth - deriv.payoff())))
+        exp = sum(vals) / n_times
+        # same tolerances as the wealth predicate of the single-instrument section (dyadic cost rates; summation order only)
+        tolw = 1e-9 if which in ("erm", "es", "eloss") else 2e-5
+        if not abs(float(price) - exp) <= tolw * max(1.0, abs(exp)):
+            ctx.fail("Hedger.price differs from minus the cash amount of (hedge portfolio - payoff) on the simulated paths, the hedge portfolio "
+                     "being built from the module's own outputs: the module evaluated step by step on the features of each step, instrument h "
+                     "holding output h, gains minus proportional costs summed over instruments and steps", case,
+                     key=f"price:{which}:stepwise:prev-hedge" if prev else f"price:{which}:stepwise", detail={"price": float(price), "expected": exp})
 
 
 def check(ctx):
@@ -756,6 +921,7 @@ def check(ctx):
                      key="price:erm:reregistered-clause:loss", detail={"price": float(price3), "loss": float(loss3)})
     hedger_price_section(ctx, torch, nn)
     hedger_subclass_section(ctx, torch, nn)
+    hedger_stepwise_section(ctx, torch, nn)
     return ctx.finish(
         rule="criteria {EntropicRiskMeasure, EntropicLoss, IsoelasticLoss, ExpectedShortfall, QuadraticCVaR, user subclass and EntropicLoss forced "
              "through the default search} on (N,) and (N,M) samples incl. constants and ties, targets; Hedger.price with frozen seeds, n_times in "
